@@ -84,3 +84,16 @@ class BasePlain:
 @dataclasses.dataclass
 class DerivedOfPlain(BasePlain):
     y: B = None  # type: ignore[assignment]
+
+
+@dltype.dltyped_dataclass()
+@dataclasses.dataclass
+class WithDerivedField:
+    """A field that __init__ does not take: it is filled in by __post_init__ and validated like the others."""
+
+    x: A
+    scale: int = 1
+    y: B = dataclasses.field(init=False)
+
+    def __post_init__(self) -> None:
+        self.y = np.zeros((self.x.shape[1] * self.scale,), dtype=np.int32)
